@@ -54,7 +54,7 @@ def input_vector(block, modelvals, t):
 
 
 def sim_concrete(block, K, modelvals, kind='sim', reg_init='sym', mem_init='sym', default_value=0,
-                 regmap_key=None, memmap_key=None, track='all'):
+                 regmap_key=None, memmap_key=None, track='all', catch=None):
     """run the real simulator on plain ints. returns (trace dict name->list, mems dict name->dict, sim)"""
     regmap_key = regmap_key or (lambda r: r)
     from .simdrv import default_memkey
@@ -82,7 +82,13 @@ def sim_concrete(block, K, modelvals, kind='sim', reg_init='sym', mem_init='sym'
         sim = pyrtl.CompiledSimulation(tracer=tracer, register_value_map=rmap, memory_value_map=mmap,
                                        default_value=default_value, block=block)
     for t in range(K):
-        sim.step(input_vector(block, modelvals, t))
+        if catch:
+            try:
+                sim.step(input_vector(block, modelvals, t))
+            except catch:
+                pass
+        else:
+            sim.step(input_vector(block, modelvals, t))
     trace = {w.name: list(tracer.trace[w.name]) for w in tracked if w.name in tracer.trace}
     memout = {}
     for mid, m in mems.items():
